@@ -164,22 +164,28 @@ def t_uninstall_trigger(ex):
     it = Interp(ex, label=P)
     loc = "/etc/conf"
     rec = fs.fsFile(loc, strict=False, mode=0o644)
-    other = fs.fsFile("/usr/bin/tool", strict=False)
-    uninstall = contents.contentsSet([rec, other])
-    existing = contents.contentsSet([fs.fsFile(loc, strict=False, mode=0o600), fs.fsFile("/usr/bin/tool", strict=False)])
+    live = fs.fsFile(loc, strict=False, mode=0o600)
+    # as the merge engine wires them: "uninstall_existing" is an alias of "uninstall" and both hold the *live* entries of what the
+    # package recorded; the recorded entries themselves are the package's raw contents
+    uninstall = existing = contents.contentsSet([live, fs.fsFile("/usr/bin/tool", strict=False)])
+    recorded_cset = contents.contentsSet([rec, fs.fsFile("/usr/bin/tool", strict=False, mode=0o755)])
     it.models[t.gen_config_protect_filter] = lambda it_, off, *a: types.SimpleNamespace(match=lambda l: prot and l == loc)
     it.models[t.gen_collision_ignore_filter] = lambda it_, off: types.SimpleNamespace(match=lambda l: ign)
+    compared = []
 
     def m_cmp(it_, a, b):
+        compared.append((a, b))
         if gone:
             from pyvc.interp import PyRaise
             raise PyRaise(FileNotFoundError(2, "gone"))
         return same
     it.models[t.simple_chksum_compare] = m_cmp
-    out = call(it, it.target(TRG, "ConfigProtectUninstall.trigger"), SObj(t.ConfigProtectUninstall, {}), types.SimpleNamespace(offset="/"), existing, uninstall)
+    out = call(it, it.target(TRG, "ConfigProtectUninstall.trigger"), SObj(t.ConfigProtectUninstall, {}), types.SimpleNamespace(offset="/"), existing, uninstall, recorded_cset)
     ex.oblige(f"{P}.raises.nothing", not out.raised, kind="exceptional-postcondition")
     if out.raised:
         return
+    ex.oblige(f"{P}.ensures.the_live_file_is_compared_with_what_the_package_recorded",
+              all({id(a), id(b)} == {id(rec), id(live)} for a, b in compared) and (len(compared) == 1) == (prot and not ign), kind="effect-invariant")
     kept = prot and not ign and not same and not gone
     ex.oblige(f"{P}.ensures.an_edited_protected_file_is_taken_off_the_removal_list_and_nothing_else", sorted(x.location for x in uninstall) == sorted(([] if kept else [loc]) + ["/usr/bin/tool"]))
 
@@ -282,8 +288,25 @@ def enum_roots(seed):
             un_existing = contents.contentsSet(livefs.intersect(uninstall))
             cur = {rel: open(os.path.join(root, rel)).read() for rel in files if os.path.exists(os.path.join(root, rel))}
             try:
-                t.ConfigProtectUninstall().trigger(eng, un_existing, uninstall)
-                ops.unmerge_contents(uninstall)
+                if s % 2:
+                    # through the merge engine's own wiring of the unmerge sets (recorded contents of the package, offset = the scratch root)
+                    from pkgcore.merge import engine as _engine
+
+                    class _Obs:
+                        def __getattr__(self, n):
+                            return lambda *a, **k: None
+                    pkg_ = types.SimpleNamespace(contents=contents.contentsSet(livefs.scan(img, offset=img)), cpvstr="cat/pkg-1")
+                    tmp_ = os.path.join(scratch, f"t{s}")
+                    os.makedirs(tmp_)
+                    e_ = _engine.MergeEngine.uninstall(tmp_, pkg_, offset=root, observer=_Obs(), disable_plugins=True)
+                    t.ConfigProtectUninstall().register(e_)
+                    e_.execute_hook("pre_unmerge")
+                    model = dict(model, through_the_merge_engine=True)
+                    ops.unmerge_contents(e_.csets["uninstall"])
+                else:
+                    # as the engine hands them over: the live entries twice (uninstall_existing is an alias of uninstall) and the recorded contents
+                    t.ConfigProtectUninstall().trigger(eng, un_existing, un_existing, uninstall)
+                    ops.unmerge_contents(un_existing)
             except Exception as e:
                 if len(fails) < 4:
                     fails.append({"model": model, "detail": f"unmerge raised {type(e).__name__}: {e}"})
@@ -296,7 +319,7 @@ def enum_roots(seed):
     finally:
         shutil.rmtree(scratch, ignore_errors=True)
     return {"name": "C21.config_protect.bounded_enumeration", "bound": "60 seeded scratch roots: 5 env.d variants (CONFIG_PROTECT / _MASK with and without trailing slash, COLLISION_IGNORE naming a directory), 4 of 7 files each absent / "
-            "identical / edited, random pending ._cfg files (identical or not), ConfigProtectInstall + merge_contents + restore, then local edits + ConfigProtectUninstall + unmerge_contents", "cases": cases, "failures": fails}
+            "identical / edited, random pending ._cfg files (identical or not), ConfigProtectInstall + merge_contents + restore, then local edits + ConfigProtectUninstall + unmerge_contents (every other root through MergeEngine.uninstall's own unmerge sets)", "cases": cases, "failures": fails}
 
 
 def tasks():
